@@ -457,24 +457,21 @@ func blobFaults(c *vf.Ctx, g sigEnt) []nsig {
 			for i, j := 0, len(sLE)-1; i < j; i, j = i+1, j-1 {
 				sLE[i], sLE[j] = sLE[j], sLE[i]
 			}
-			sv := new(big.Int).Add(new(big.Int).SetBytes(sLE), L)
-			if sv.BitLen() <= 256 {
-				be := sv.FillBytes(make([]byte, 32))
-				for i, j := 0, 31; i < j; i, j = i+1, j-1 {
-					be[i], be[j] = be[j], be[i]
-				}
-				with("S := S+L", append(append([]byte{}, b[:32]...), be...))
+			sv := new(big.Int).Add(new(big.Int).SetBytes(sLE), L) // S < L < 2^253: always fits
+			be := sv.FillBytes(make([]byte, 32))
+			for i, j := 0, 31; i < j; i, j = i+1, j-1 {
+				be[i], be[j] = be[j], be[i]
 			}
+			with("S := S+L", append(append([]byte{}, b[:32]...), be...))
 			with("R and S swapped", append(append([]byte{}, b[32:]...), b[:32]...))
 		}
 	case sr.RSA:
 		k := g.by.ref.RSA
 		size := (k.N.BitLen() + 7) / 8
+		// s+n is the same residue; it needs size or size+1 bytes depending on the values
 		sv := new(big.Int).Add(new(big.Int).SetBytes(b), k.N)
-		if (sv.BitLen()+7)/8 <= size {
-			with("s := s+n (same length)", sv.FillBytes(make([]byte, size)))
-		}
-		with("s := s+n (minimal length)", new(big.Int).Add(new(big.Int).SetBytes(b), k.N).Bytes())
+		with("s := s+n (same residue mod n)", sv.FillBytes(make([]byte, (sv.BitLen()+7)/8)))
+		with("s := s+n left-padded to size+1 bytes", sv.FillBytes(make([]byte, size+1)))
 		with("00 00 + blob", append([]byte{0, 0}, b...))
 	case sr.DSA:
 		with("r := 0", append(make([]byte, 20), b[20:]...))
